@@ -15,6 +15,15 @@ def run(ctx):
         MONITORS.update(dict((u.name, ("m_enum", lambda v: None, lambda nm: None, 4000)) for u in T.UNITS))
     except ImportError:
         pass
+    # the value expression is parsed by ExprParser: grouping as in C++ (precedence climbing units, also under C09)
+    import copy as _copy
+    from contracts import declast_parser as P
+    for u in P.EXPR_UNITS:
+        if u.name in ("ExprParser.primary", "ExprParser.expression"):
+            u2 = _copy.copy(u)
+            u2.prop = "C11"
+            units.append(u2)
+            MONITORS[u2.name] = ("m_enum_e2e", lambda v: None, lambda nm: None, 120)
     ctx.pyvc(units, MONITORS)
     # A3 (identifier renaming commutes with evaluation) rests on PrintNodeIdentifier printing the same structure as the
     # verified PrintNode: it may override visit_Identifier only
@@ -37,7 +46,7 @@ def run(ctx):
         "expression that evaluates to the parsed expression's value in the target language (printer contract, C09)",
         "pyvc, z3/cvc5; enum members as a symbolic list of records (name, optional value node)",
     ]
-    ctx.not_covered += ["wrapp.wrap_enum / Lua constants; ExprParser.expression precedence (bounded monitor only)"]
+    ctx.not_covered += ["wrapp.wrap_enum / Lua constants"]
     # bounded stand-in at the property's observation point: g++ on original + generated header, gfortran on the module
     n = 120 if ctx.tier == "quick" else 100000
     r = ctx.monitor("m_enum_e2e", "psearch", n, ctx.seed, 16)
